@@ -103,6 +103,8 @@ class Ctx:
         cov.setdefault("obligations", 1)
         cov.setdefault("discharged", 0)
         cov.setdefault("checker_cmd", "lake build")
+        if "samples" not in cov:
+            cov["samples"] = list(getattr(self, "samples", []))[:6] or [{"note": "no case was run (replay or broken build)"}]
         cov["trusted_base"] = TRUSTED_COMMON + list(trusted_extra)
         cov["broken"] = self.broken
         cov["known_findings_seen"] = self.known_seen
